@@ -202,6 +202,7 @@ WholeClauses == <<
 ViewClauses(v) == <<
   <<"C03", "annotated-tree-cost-differs-from-script-total", v.edited = total>>,
   <<"C03", "flat-edit-list-cost-differs-from-script-total", v.flat = total>>,
+  <<"C01", "listed-edits-(get_all_edits)-do-not-account-for-every-change-of-the-script", v.flat = total>>,
   <<"C03", "refined-top-level-cost-differs-from-script-total", v.top = total>>,
   <<"C03", "annotated-tree-of-a-chained-diff-differs-from-script-total", v.chained = total>>,
   <<"C03", "annotated-tree-cost-asked-after-its-parts-were-refined-differs-from-script-total", v.partsFirst = total>>,
